@@ -248,7 +248,7 @@ def judge(d):
 
 
 @st.composite
-def cases(draw, kinds=("single", "batch", "group", "mock", "multi", "notemplate")):
+def cases(draw, kinds=("single", "batch", "group", "mock", "multi", "notemplate"), force_T=None, force_rots=None, nmax=4):
     kind = draw(st.sampled_from(list(kinds)))
     model = draw(st.sampled_from(MODELS))
     par = draw(st.sampled_from(["odd", "even", "mixed", "cubic"]))
@@ -276,13 +276,17 @@ def cases(draw, kinds=("single", "batch", "group", "mock", "multi", "notemplate"
         rots = {"kind": "iso", "max": step, "step": step}
     else:
         rots = {"kind": "none"}
+    if force_rots is not None:
+        rots = dict(force_rots)
     rmax = (min(shape) - 1) / 2 - max(ms) - 0.5
     T = draw(st.sampled_from([1, 2, 2, 3, 3])) if kind == "multi" else 1
+    if force_T is not None:
+        T = force_T
     blobsets = [draw(planted.blob_offsets(rmax, variant=v)) for v in range(T)]
     if kind == "notemplate":
         n = 8
     else:
-        n = draw(st.integers(1, 4))
+        n = draw(st.integers(1, nmax))
     ntomo = draw(st.integers(2, 3)) if kind == "batch" else 1
     diag = math.sqrt(sum(s * s for s in shape))
     cell = int(math.ceil(diag + 2 * max(ms) + 2 * 3 + 6))
@@ -303,7 +307,7 @@ def cases(draw, kinds=("single", "batch", "group", "mock", "multi", "notemplate"
             "off": [round(draw(st.floats(-0.5, 0.5)), 3) for _ in range(3)],
             "Rstar": draw(gen.rotvecs()),
             "m": m, "mcls": mcls,
-            "k": 0 if kind == "notemplate" else draw(st.integers(1, 40)),
+            "k": 0 if kind == "notemplate" else draw(st.integers(1, 40 if force_rots is None else 400)),
             "tmpl": draw(st.integers(0, 2)), "tomo": i if i < ntomo else draw(st.integers(0, 2)),
             "grp": i if i < 2 else draw(st.integers(0, 1)),
         })
